@@ -385,8 +385,9 @@ pub fn run_c09(ctx: &Ctx) -> Report {
     let n = if ctx.miri { 3 } else { ctx.n(1500, 60_000) };
     let r = par_cases(ctx, "C09", "defs", n, |rng, i, rep| {
         let counts: &[usize] = if ctx.miri { &[0, 1, 2] } else if ctx.thorough { &[0, 1, 2, 3, 250, 251, 252, 300, 1000] } else { &[0, 1, 2, 3, 250, 251, 252, 300] };
-        let np = if rng.chance(1, 6) { *rng.pick(counts) } else { rng.below(4) as usize };
-        let nc = if rng.chance(1, 6) { *rng.pick(counts) } else { rng.below(5) as usize };
+        // (two cases per run fill a 16-bit count of the PREPARE reply to its limit)
+        let np = if !ctx.miri && i == 9 { 65_535 } else if rng.chance(1, 6) { *rng.pick(counts) } else { rng.below(4) as usize };
+        let nc = if !ctx.miri && i == 11 { 65_535 } else if rng.chance(1, 6) { *rng.pick(counts) } else { rng.below(5) as usize };
         // resultset headers can carry any number of columns (the count is length-encoded): a few
         // cases cross 2^16 (PREPARE replies cannot: their counts are 16-bit fields)
         let nr = if !ctx.miri && (i == 7 || (ctx.thorough && i % 5000 == 11)) { *rng.pick(&[65_535usize, 65_536, 65_537, 70_000]) } else if rng.chance(1, 6) { (*rng.pick(counts)).max(1) } else { rng.range(1, 5) as usize };
